@@ -254,6 +254,7 @@ def crash_remote_agent(cfg):
         from vk.sysrun import CTX
         K = cfg.get('K', 2)
         st = {'fired': None}
+        victim = cfg.get('victim', 'B')      # 'A': the (remote) simulator the agent queries exits, e.g. while it is idle waiting for the agent
         loop = R.MemLoop(eng)
         R.SIM_CLASSES['2'] = c16.AgentSim
         log = []
@@ -279,11 +280,12 @@ def crash_remote_agent(cfg):
                         else:
                             ents['B'] = w.start('RG', sim_id='B', typ='time-based').M()
                     w.connect(ents['A'], ents['B'], async_requests=True)
-                    ep = next(e for e in loop.endpoints if getattr(e.sim, 'sid', None) == 'B')
+                    ep = next(e for e in loop.endpoints if getattr(e.sim, 'sid', None) == victim)
                     loop.rst = True
 
                     def process_exit():
                         st['fired'] = ('any', len(loop.deliveries))
+                        st['log_at_exit'] = len(log)
                         ep.die_now()
                     loop.events.append(process_exit)
                     loop.active = True
@@ -305,14 +307,19 @@ def crash_remote_agent(cfg):
                         loop.close()
         finally:
             logger.remove(hid)
-        fp = ['remote-agent']
-        desc = f"remote agent B (async requests to A) exits at {st['fired']}; order={cfg.get('order', 'AB')} remote={cfg.get('remote', 'B')} cache={cfg.get('cache', False)}"
+        fp = ['remote-agent', victim]
+        desc = f"remote agent B with async requests to A; the process of {victim} exits at {st['fired']}; order={cfg.get('order', 'AB')} remote={cfg.get('remote', 'B')} cache={cfg.get('cache', False)}"
         if st['fired'] is None:
             return ('nofault:' + str(outcome), {'nontrivial': False})
         if outcome in ('deadlock', 'livelock'):
             eng.alarm('C14.hang', f'run() {outcome} after the fault: {desc}; in flight={[(w_.label, len(w_.inflight)) for w_ in loop.wires]}', {'fp': fp})
-        fin = [i for i, x in enumerate(log) if x[0] == 'finalize' and x[1] == 'A']
-        eng.check(len(fin) == 1, 'C14.finalize', f'A was finalized {len(fin)} times: {desc}', {'fp': fp})
+        other = 'A' if victim == 'B' else 'B'
+        if outcome == 'done' and not errs:
+            needed = any(x[1] == victim and x[0] in ('step', 'get_data', 'setup_done') for x in log[st.get('log_at_exit', 0):])
+            if needed:
+                eng.alarm('C14.silent', f'run() completed normally and logged no error although a simulator it still needed had failed: {desc}', {'fp': fp})
+        fin = [i for i, x in enumerate(log) if x[0] == 'finalize' and x[1] == other]
+        eng.check(len(fin) == 1, 'C14.finalize', f'{other} was finalized {len(fin)} times: {desc}', {'fp': fp})
         left = [getattr(e.sim, 'sid', '?') for e in loop.endpoints if e.ended == 'left-behind']
         eng.check(not left, 'C14.process', f'simulator process(es) {left} still running one (virtual) second after run() ended: {desc}', {'fp': fp})
         open_ = getattr(loop, 'mosaik_side_open', [])
@@ -377,10 +384,11 @@ def jobs(tier):
                             j['split_depth'] = 16
                         out.append(j)
     # a remote agent with asynchronous requests exits at any idle moment (its requests may be in service)
-    for order, remote in ([('BA', 'AB'), ('AB', 'B')] if q else [('BA', 'AB'), ('AB', 'B'), ('AB', 'AB'), ('BA', 'B')]):
+    for order, remote, victim in ([('BA', 'AB', 'B'), ('AB', 'B', 'B'), ('AB', 'AB', 'A')] if q else
+                                  [('BA', 'AB', 'B'), ('AB', 'B', 'B'), ('AB', 'AB', 'B'), ('BA', 'B', 'B'), ('AB', 'AB', 'A'), ('BA', 'AB', 'A')]):
         for cache in ((False,) if q else (False, True)):
-            cfg = {'until': 2, 'K': 2, 'cache': cache, 'order': order, 'remote': remote}
-            out.append({'id': f"remote-agent|order={order}|remote={remote}|cache={int(cache)}", 'harness': 'vk.kernels.c14:crash_remote_agent',
+            cfg = {'until': 2, 'K': 2, 'cache': cache, 'order': order, 'remote': remote, 'victim': victim}
+            out.append({'id': f"remote-agent|order={order}|remote={remote}|victim={victim}|cache={int(cache)}", 'harness': 'vk.kernels.c14:crash_remote_agent',
                         'params': {'cfg': cfg}, 'budget_s': 300, 'split_depth': 14})
     for kind in ('raise', 'reset') + (() if q else ('eof', 'typeerr')):
         for sync in ([[], ['B'], ['X']] if q else [[], ['A'], ['B'], ['X'], ['A', 'B', 'X']]):
